@@ -320,6 +320,41 @@ class C18(Check):
                         out.fail("C18.eqhash", "types with bit length sets %s and %s compare equal but hash differently" % (sorted(sa), sorted(sb)), "hash:lookalike")
             except NodeError:
                 pass
+            # (2d) a bit length set against the same numbers held in a plain container (what `bls == {8, 16}` in a client's
+            # assertion does), and against a set built from such a container: equal sets are never reported different
+            from ..worlds import realcanon
+            def plain_forms(vals):
+                vs = sorted(vals)
+                forms = [("set", set(vs)), ("frozenset", frozenset(vs)), ("list", list(vs)), ("tuple", tuple(reversed(vs)))]
+                if len(vs) >= 2 and len({b0 - a0 for a0, b0 in zip(vs, vs[1:])}) == 1:
+                    st = vs[1] - vs[0]
+                    forms += [("range", range(vs[0], vs[-1] + 1, st)), ("range-exact-stop", range(vs[0], vs[-1] + st, st)), ("range-ragged-stop", range(vs[0], vs[-1] + 1 + (st - 1) // 2, st))]
+                return forms
+            cands = []
+            for k, o in oa:
+                if isinstance(o, pydsdl.BitLengthSet):
+                    ex = realcanon.safe_expand(o)
+                    if ex is not None and 1 <= len(ex) <= 300:
+                        cands.append((k, o, ex))
+            pk = scn["pick_seed"]
+            cands = cands[:12] + [("progression", pydsdl.BitLengthSet({a0 + st * i for i in range(cnt)}), {a0 + st * i for i in range(cnt)})
+                                  for a0, st, cnt in ((pk % 9, 2 + pk % 7, 2 + pk % 5), (8 * (pk % 4), 8, 3 + pk % 6), (pk % 3, 3, 2), (0, 1 + pk % 4, 4))]
+            for k, b0, ex in cands:
+                for fname, form in plain_forms(ex):
+                    try:
+                        built = pydsdl.BitLengthSet(form)
+                        verdicts = [("set == %s" % fname, b0 == form), ("set == BitLengthSet(%s)" % fname, b0 == built), ("BitLengthSet(%s) == set" % fname, built == b0),
+                                    ("members of BitLengthSet(%s)" % fname, set(built) == ex), ("hash", hash(built) == hash(b0))]
+                    except Exception as ex0:
+                        from .base import raised_inside_sut
+                        if not raised_inside_sut(ex0):
+                            raise
+                        out.fail("C18.bls-eq", "%s: comparing / building with a %s of the same numbers raised %s: %s" % (k, fname, type(ex0).__name__, ex0), "bls-plain-raised:" + fname)
+                        continue
+                    out.stats["bls_vs_plain_container"] += 1
+                    for what, okv in verdicts:
+                        if not okv:
+                            out.fail("C18.bls-eq", "%s: bit length set %s against the same numbers as a %s: '%s' is false" % (k, sorted(ex)[:8], fname, what), "bls-plain:" + fname.split("-")[0])
             # (2c) every pair of primitive / void types that occur anywhere (incl. the implicit length and tag fields): equal iff
             # same class and same string form
             prims = []
@@ -392,6 +427,38 @@ class C18(Check):
                     if not (o == explicit) or not (explicit == o) or hash(o) != hash(explicit) or not (o == members):
                         out.fail("C18.bls-eq", "%s: %s is unequal to the explicit set of its own elements" % (k, o), "bls-eq")
                     out.stats["bls_pairs"] += 1
+            # (5) history: the definition files are edited IN PLACE (same paths) and read again in the same process; a model object
+            # kept from the earlier read equals the new object of the same file exactly when nothing observable changed
+            if c is not None and sorted(c.uni.defs) == sorted(b.uni.defs) and all(c.uni.file_of(k) == b.uni.file_of(k) for k in b.uni.defs):
+                for k in c.uni.defs:
+                    b.world.write(b.uni.file_of(k), c.world.texts[k])
+                fresh: dict = {}
+                nroots = len(b.uni.roots)
+                ok5 = True
+                for ri in range(nroots):
+                    res5 = b.world.run_read({"op": "rn", "root": {"p": b.uni.roots[ri]["dir"]},
+                                             "lookups": [{"p": b.uni.roots[x]["dir"]} for x in range(nroots) if x != ri], "key": None, "cwd": ""})
+                    if not res5["ok"]:
+                        ok5 = False
+                        break
+                    fresh.update({str(t): t for t in res5["direct"]})
+                if ok5:
+                    olds, news = dict(_harvest(b.types)), dict(_harvest(fresh))
+                    for k5, o_old in olds.items():
+                        o_new = news.get(k5)
+                        if o_new is None or type(o_old) is not type(o_new) or not isinstance(o_old, pydsdl.SerializableType):
+                            continue
+                        differ = str(o_old) != str(o_new) or self._bls_differ(o_old, o_new)
+                        out.stats["kept_vs_reread_after_edit_pairs"] += 1
+                        out.stats["kept_vs_reread_after_edit_differing"] += int(differ)
+                        e1, e2 = (o_old == o_new), (o_new == o_old)
+                        if differ and (e1 or e2):
+                            out.fail("C18.distinct", "%s (%s): the object kept from the read before the file was edited in place and the object read afterwards differ in string form / length set (%s) but compare equal" % (
+                                k5, type(o_old).__name__, lab), "distinct:kept-vs-reread")
+                        elif e1 != e2:
+                            out.fail("C18.eqhash", "%s: kept vs re-read: == is not symmetric" % k5, "symmetric")
+                        elif e1 and hash(o_old) != hash(o_new):
+                            out.fail("C18.eqhash", "%s: kept and re-read objects are equal with different hashes" % k5, "hash:kept-vs-reread")
         finally:
             for n in nodes:
                 n.close()
